@@ -263,12 +263,32 @@ func crossGroups(o *Outcome, dir string) map[string]bool {
 	return out
 }
 
+// contentOf: kind, content, link target and device numbers of a node record (what a hard-link entry that reaches the
+// object through another of its names cannot change; mode, owner and times it can — they belong to the shared inode)
+func contentOf(v string) string {
+	f := strings.Fields(v)
+	if len(f) < 9 {
+		return v
+	}
+	return f[0] + " " + strings.Join(f[5:9], " ")
+}
+
 func outsideUnchanged(before, after *Outcome, dir string) string {
 	b, a := nodesOutside(before, dir), nodesOutside(after, dir)
+	// an outside name whose object also had a name inside the destination when the call started: the object is in the
+	// destination as well, and an entry that legitimately names it there (a hard-link entry carries mode, owner and
+	// times for the inode it links to) re-times it for every name. Its content, kind and existence stay.
+	shared := crossGroups(before, dir)
 	for p, v := range b {
 		w, ok := a[p]
 		if !ok {
 			return "deleted outside " + dir + ": " + p
+		}
+		if shared[p] {
+			if contentOf(v) != contentOf(w) {
+				return fmt.Sprintf("changed outside %s: the content of %s, which shares its object with a name inside (%s -> %s)", dir, p, v, w)
+			}
+			continue
 		}
 		if v != w {
 			return fmt.Sprintf("changed outside %s: %s (%s -> %s)", dir, p, v, w)
